@@ -93,4 +93,18 @@ PROPS = {
         "min_counters": {"api.calls": 100000, "clone.PasswordAlgorithms": 500, "clone.UnknownAttributes": 500,
                          "clone.StunAttributes": 500},
     },
+    "C18": {
+        "title": "Decoder options only filter or decorate; they never change what the bytes mean",
+        "profiles": ["dev"],
+        "rule": ("each input (reference-built messages with noise and unknown attribute types of every length mod 4, "
+                 "their structure-aware mutations, RFC vectors and mutations) is decoded under all 16 option "
+                 "combinations and the context-less decoder; relations: R1 validation-on Ok(m) => validation-off Ok(m); "
+                 "R2 unknown-data on/off: same outcome (same error text) and each Unknown carries exactly the wire value "
+                 "bytes found by the reference TLV walk; R3 not_ignore yields every wire attribute in order and the "
+                 "default result is a subsequence (validation off, both succeed); R4 no context == default context, key "
+                 "without validation == no key. Non-trivial = >=1 attribute; distinct = hash of input bytes."),
+        "assumptions": [],
+        "min_counters": {"inputs.decodable": 2000, "R1.validated-ok": 2000, "R2.unknown-values-compared": 500,
+                         "R3.compared": 2000},
+    },
 }
